@@ -592,7 +592,7 @@ theorem refine_stage_fork :
   | succ fuel =>
     obtain ⟨sins, souts, hl⟩ := hstage
     simp only [runCallable, staticCallable, hl] at hstore ⊢
-    have hs := hstore ⟨path, callee, cins, []⟩ (by simp)
+    have hs := hstore ⟨path, callee, cins, [], []⟩ (by simp)
     refine ⟨?_, ?_, ?_, Or.inr ⟨_, rfl, rfl⟩⟩
     · intro f hf
       simp only [evalRT, projPath]
@@ -627,7 +627,7 @@ theorem refine_callableT :
       cases cb with
       | stage sins souts =>
         simp only [hl] at hstore
-        have hs := hstore ⟨path, callee, cins, []⟩ (by simp)
+        have hs := hstore ⟨path, callee, cins, [], []⟩ (by simp)
         refine ⟨?_, ?_, ?_⟩
         · intro f
           simp only [evalRT, projPath]
